@@ -45,6 +45,9 @@ static long fetch_and_inc(volatile long& x) {
 static long fetch_and_dec(volatile long& x) {
 	return __sync_fetch_and_sub(&x, 1);
 }
+static long fetch_and_store(volatile long& x, long v) {
+	return __sync_lock_test_and_set(&x, v);
+}
 #else
 #define WIN32_LEAN_AND_MEAN // exclude APIs such as Cryptography, DDE, RPC, Shell, and Windows Sockets.
 #if !defined(NOMINMAX)
@@ -57,6 +60,9 @@ static long fetch_and_inc(volatile long& x) {
 }
 static long fetch_and_dec(volatile long& x) {
 	return InterlockedDecrement(&x) + 1;
+}
+static long fetch_and_store(volatile long& x, long v) {
+	return InterlockedExchange(&x, v);
 }
 #endif
 using namespace Potassco::ProgramOptions;
@@ -178,8 +184,7 @@ int Application::blockSignals() {
 // Re-enable signal handling and deliver any pending signal.
 void Application::unblockSignals(bool deliverPending) {
 	if (fetch_and_dec(blocked_) == 1) {
-		int pend = pending_;
-		pending_ = 0;
+		int pend = static_cast<int>(fetch_and_store(pending_, 0));
 		// directly deliver any pending signal to our sig handler
 		if (pend && deliverPending) { processSignal(pend); }
 	}
